@@ -39,7 +39,10 @@ RULE = ("(a) systematic head (harness/gen_expr.py): every operator overload pair
         "children share a base variable across worlds / value marks (every relation between ranges and duplicated / single "
         "bases x {P, PP}); marginalize / normalize_marginalize / conditional of such leaves and sums; * and / between them; "
         "judged on the widened class for Sum.simplify and the operators that never look inside a leaf, on generic positive "
-        "families plus one random functional SCM. A case is non-trivial when both operands have depth >= 2 (operators) or the helper really "
+        "families plus one random functional SCM. (d) chain_expand with an explicit ordering that contains the (interventional / "
+        "value-marked) children themselves, so that it succeeds; ranges with duplicate bases ([A, A@X], [A, -A]) and "
+        "Intervention objects; every range / ordering argument in every legal FORM (bare Variable, bare str, str names, "
+        "tuple / set / frozenset / generator / iterator). A case is non-trivial when both operands have depth >= 2 (operators) or the helper really "
         "rewrites its input.")
 ASSUMPTIONS = [
     "argument FORMS (harness/forms.py; chosen deterministically per case, stored in the case, tagged form_*): the `ranges` of marginalize / conditional / normalize_marginalize (VariableHint) as list / tuple / set / frozenset / generator / iterator, as a bare Variable or a bare str for a single range, with plain variables written as str names (all or every other one); chain_expand's ordering in every container form with Variable / str / mixed elements. The models take a list of variables: independence of the form is a runtime clause decided by correspondence + oracle",
@@ -314,6 +317,25 @@ def chain_ordering_cases(rng: random.Random, n: int):
     return out
 
 
+def range_shape_cases(rng: random.Random, n: int):
+    """ranges with duplicate BASES ([A, A @ X], [A, -A]) and Intervention OBJECTS (what the DSL's -A / +A build) handed to
+    marginalize / conditional / normalize_marginalize: all are reduced with get_base() and de-duplicated"""
+    out = []
+    while len(out) < n:
+        nn = rng.choice([3, 4, 4, 5])
+        a, lab = GE.struct_expr(rng, nn) if rng.random() < 0.7 else GE.struct_mw_expr(rng, nn)
+        ev = sorted(GE.event_names(a)) or [0]
+        r = []
+        for x in rng.sample(ev, rng.randint(1, min(3, len(ev)))):
+            forms = [V(x), ["v", x, rng.choice(["m", "p"]), "1", []], cf(x, [[rng.choice([m for m in range(nn + 1) if m != x]), "m"]]),
+                     ["v", x, rng.choice(["m", "p"]), "0", []]]
+            r += rng.sample(forms, rng.choice([1, 2, 2, 3]))
+        rng.shuffle(r)
+        out.append({"op": rng.choice(["marginalize", "conditional", "normalize_marginalize"]), "a": a, "r": r,
+                    "gen": "range_shapes:" + lab, "seed": rng.randrange(1 << 30)})
+    return out
+
+
 def cases(rng: random.Random, tier: str):
     return [F.assign(c, _slots(c)) for c in _cases(rng, tier)]
 
@@ -326,6 +348,7 @@ def _cases(rng: random.Random, tier: str):
     out += random_cases(rng, 6000 if tier == "quick" else 70000)
     out += mw_cases(rng, 1 if tier == "quick" else 6)      # appended: the streams above are unchanged
     out += chain_ordering_cases(rng, 250 if tier == "quick" else 2000)
+    out += range_shape_cases(rng, 200 if tier == "quick" else 1500)
     return out
 
 
